@@ -3,7 +3,7 @@
 Engine shared with C02 in harness/props/sat_common.py (generators, hook runner, truth-table oracle, Coq replay).
 This module judges only C01's clauses: returned assignments (solution and every entry of solutions) satisfy all
 clauses and assumptions and are pairwise distinct; machine rejections of solution / blocking-clause events or a
-result_of mismatch are C01's, learned-clause / INFEASIBLE rejections are left to C02.
+result_of mismatch are reported; the machine is replayed with the RUP guards off (chk = false), which C01's theorems allow.
 """
 from harness.core import Ctx
 from harness.props import sat_common as SC
